@@ -589,6 +589,83 @@ fn c20_cluster_apply(rmask: u8, vmax: u64, known: bool) {
 }
 
 // ---------------------------------------------------------------------------------------------
+// C20: what NodeState::apply_delta reports per section: ApplyAfterReset iff the copy (any shape, empty and just created included)
+// is behind a collection it has not seen and the section restarts from version 0; then nothing from before the reset survives
+fn c20_status(rmask: u8, n_kv: usize, vmax: u64) {
+    let (mut r, rc) = shaped_state(rmask, vmax);
+    let (nd, spec, _dmax) = any_node_delta(n_kv, vmax, true);
+    let (from, gc) = (nd.from_version_excluded, nd.last_gc_version);
+    let st = r.apply_delta(nd, T0);
+    let after = snapshot(&r);
+    let behind_gc = gc > rc.gc && gc > rc.max;
+    // oracle independent of the coded reset condition: only a reset moves a copy's watermark inside apply_delta
+    let was_reset = after.gc != rc.gc;
+    kani::cover!(st == DeltaStatus::ApplyAfterReset, "reset taken");
+    kani::cover!(st == DeltaStatus::Apply, "incremental");
+    kani::cover!(st == DeltaStatus::Reject && behind_gc, "behind a collection but the section does not restart from 0: rejected");
+    assert!((st == DeltaStatus::ApplyAfterReset) == was_reset, "C20: a section is reported as a reset iff the copy was actually reset (wiped and restarted at the sender's watermark)");
+    if st == DeltaStatus::ApplyAfterReset { assert!(from == 0, "C20/C14: a reset copy must be rebuilt from version 0"); }
+    if st == DeltaStatus::ApplyAfterReset {
+        assert!(after.gc == gc, "C20: a reset copy restarts at the sender's watermark");
+        let mut k = 0;
+        while k < 3 {
+            if after.e[k].present {
+                let mut supplied = false;
+                let mut i = 0;
+                while i < 3 { if i < n_kv && spec[i].key == k && spec[i].version == after.e[k].version { supplied = true; } i += 1; }
+                assert!(supplied, "C20: a reset copy kept an entry from before the reset");
+            }
+            k += 1;
+        }
+    }
+    std::mem::forget(r);
+}
+
+// ---------------------------------------------------------------------------------------------
+// C20: aggregation of the reset flag over the members of one delta. NodeState::apply_delta is replaced by its contract (returns ANY
+// status; which status a section gets is decided on the real function by c20_scalar_* / c20_apply_*); real ClusterState::apply_delta.
+static mut NODE_APPLIES: u32 = 0;
+static mut NODE_RESETS: u32 = 0;
+fn stub_node_apply(_ns: &mut NodeState, nd: NodeDelta, _now: Instant) -> DeltaStatus {
+    std::mem::forget(nd);
+    let k: u8 = kani::any();
+    kani::assume(k < 3);
+    unsafe { NODE_APPLIES += 1; if k == 2 { NODE_RESETS += 1; } }
+    match k { 0 => DeltaStatus::Reject, 1 => DeltaStatus::Apply, _ => DeltaStatus::ApplyAfterReset }
+}
+fn zid() -> ChitchatId { ChitchatId::new("z".to_string(), 0, ([127, 0, 0, 1], 3).into()) }
+/// `sections` members in the delta (x, y, z in this order); bit i of `unknown` = member i has no copy on the receiver
+fn c20_aggregate(sections: usize, unknown: u8) {
+    unsafe { NODE_APPLIES = 0; NODE_RESETS = 0; }
+    let mut cs = mk_cluster_state();
+    let mut delta = Delta::default();
+    delta.node_deltas.reserve(3);
+    let mut known = 0u32;
+    let mut i = 0;
+    while i < sections {
+        let id = if i == 0 { xid() } else if i == 1 { yid() } else { zid() };
+        if unknown & (1 << i) == 0 { cs.node_states.insert(id.clone(), empty_state_for(id.clone())); known += 1; }
+        delta.node_deltas.push(NodeDelta { chitchat_id: id, from_version_excluded: 0, last_gc_version: 0, key_values: Vec::new(), max_version: 0 });
+        i += 1;
+    }
+    let flag = cs.apply_delta(delta);
+    let (applies, resets) = unsafe { (NODE_APPLIES, NODE_RESETS) };
+    kani::cover!(resets >= 2, "two copies reset by one message");
+    kani::cover!(resets == 1 && applies >= 2, "one of several copies reset");
+    kani::cover!(applies == known && known >= 2, "every section about a known member applied");
+    assert!(flag == (resets > 0), "C20: reset flag must be true iff at least one copy of the message was reset (however many, in whatever position)");
+    assert!(cs.node_states.len() == known as usize, "C03: delta about an unknown member created a copy");
+    std::mem::forget(cs);
+}
+macro_rules! h_c20_agg { ($name:ident, $unw:expr, $body:expr) => {
+    #[kani::proof]
+    #[kani::unwind($unw)]
+    #[kani::stub(crate::listener::Listeners::trigger_event, noop_trigger)]
+    #[kani::stub(crate::state::NodeState::apply_delta, stub_node_apply)]
+    fn $name() { $body }
+}}
+
+// ---------------------------------------------------------------------------------------------
 // contract stub of the delta computation for message-level budget queries (C07): returns a delta whose
 // serialized length is ANY value in 1..=mtu (what the ser_ub_* / snd_full queries establish for the real one)
 pub(crate) static mut LAST_MTU: usize = 0;
@@ -600,7 +677,6 @@ pub(crate) fn contract_partial_delta(_cs: &ClusterState, _digest: &Digest, mtu: 
 }
 
 // ---------------------------------------------------------------------------------------------
-// harness declaration macros (instances are generated per run by /verif/vlib/plan.py)
 /// C11 (integer part): NodeState::try_set_heartbeat on a copy whose stored heartbeat is any u64: it reports fresh evidence iff
 /// the value is strictly higher than a known (non-initial) one; equal / lower / replayed values are neither evidence nor stored
 fn c11_hb_kernel() {
@@ -620,6 +696,8 @@ fn c11_hb_kernel() {
     assert!(stored2 == if stored1 == 0 || h2 > stored1 { h2 } else { stored1 }, "C03/C11: stored heartbeat must only rise, to the reported value");
     std::mem::forget(ns);
 }
+// ---------------------------------------------------------------------------------------------
+// harness declaration macros (instances are generated per run by /verif/vlib/plan.py)
 macro_rules! h_plain { ($name:ident, $unw:expr, $body:expr) => {
     #[kani::proof]
     #[kani::unwind($unw)]
